@@ -318,6 +318,25 @@ def probe_params(rnd, thorough):
                     "dask": rnd.random() < 0.15, "quantity": rnd.random() < 0.25,
                     "rate": rnd.randrange(len(sl.RATES)), "baseband": kind[0] == "c" and len(ssh) >= 1 and rnd.random() < 0.3,
                     "again": i % 2 == 1, "layout": rnd.choice(sl.LAYOUTS), "chunks": rnd.randrange(5)})
+    return out + anchor_probes(thorough)
+
+
+def anchor_probes(thorough):
+    """seed-independent part of the probe set: at the largest length, every data kind (complex64/128, float32/64),
+    NumPy and Dask, non-integer shifts of a large fraction of the signal applied to tones near the band edge
+    (accumulated ramp phase 2 pi s k / N of hundreds to thousands of cycles)"""
+    out = []
+    for N in ([4096, 16384] + ([65536] if thorough else [])):
+        for kind in ("c8", "c16", "f4", "f8"):
+            real = kind[0] == "f"
+            for dask in (False, True):
+                for ssh, shsh, S in (((), (), [N / 3 + 0.37]), ((2,), (2,), [-(N / 4 + 0.61), N / 2 - 0.25]),
+                                     ((2, 2), (1, 2), [0.45 * N + 0.13, -(N / 5 + 0.5)])):
+                    nel = int(np.prod(ssh)) if ssh else 1
+                    ks = [(N // 2 - 5 - 11 * j) * (1 if real or j % 2 == 0 else -1) for j in range(nel)]
+                    out.append({"N": N, "ssh": list(ssh), "shsh": list(shsh), "S": [float(v) for v in S], "kind": kind, "ks": ks,
+                                "dask": dask, "quantity": False, "rate": 1, "baseband": False, "again": False,
+                                "layout": "C", "chunks": 0})
     return out
 
 
